@@ -64,7 +64,9 @@ def judge_files(ctx, files, mine):
                 ctx._distinct.add(key)
             names = set(fails.get(i, ()))
             if r["src"] == "jsonclass" and r["bk"] != "unparseable":
-                names &= FORMULAS["C02"]          # descriptor-bearing payloads that load: only "never raises / well-formed" is claimed
+                # descriptor-bearing payloads that load: "never raises / well-formed" is claimed, and the reply's form
+                # (it depends on the request's own version member only)
+                names &= FORMULAS["C02"] | {"Form", "ConfigUntouched"}
             bad = sorted(names & mine)
             for name in bad:
                 ctx.violation(sig_of(name, r), "%s fails for body %s (server %s.0, %s dispatch) -> %s %s" % (
